@@ -1,4 +1,5 @@
 (* C06: the statements.  This file contains nothing but the property theorems. *)
+From Maddy Require Pipeline.ChecksCorr Pipeline.ChecksOnce Pipeline.ChecksSeen.
 From Maddy Require Import Lib.Base Pipeline.Checks Pipeline.ChecksLemmas.
 From Coq Require Import Permutation.
 Local Open Scope N_scope.
@@ -77,6 +78,35 @@ Proof. exact ChecksOnce.model_outcomes_pass_clause_6. Qed.
 Print Assumptions C06_model_outcomes_pass_clause_6.
 
 (* non-vacuity *)
+(* Every stage is seen: for every script of verdicts, every configuration and every recipient
+   list, if the message is delivered then every applicable check - global, per-sender, and of every
+   block an accepted recipient was routed to - has one state whose call log holds the connection,
+   the sender, every accepted recipient in the check's scope and the body. *)
+Theorem C06_delivered_message_seen_by_every_applicable_check :
+  forall script cfg l d,
+    let o := run_message script cfg l in
+    o_body o = Some (Some d) ->
+    forall c, In c (ChecksCorr.applicable cfg l o) ->
+    exists s, In (c, s, SConn) (o_log o) /\ In (s, SSender) (map ChecksOnce.key (o_log o)) /\
+              In (s, SBody) (map ChecksOnce.key (o_log o)) /\
+              forall r, In r (ChecksCorr.in_scope cfg l o c) -> In (s, SRcpt r) (map ChecksOnce.key (o_log o)).
+Proof. exact ChecksSeen.delivered_seen. Qed.
+Print Assumptions C06_delivered_message_seen_by_every_applicable_check.
+
+(* ... and with "no state sees a stage twice" every one of these counts is exactly one: the
+   model's outcomes pass clause 7 of the monitor *)
+Theorem C06_model_outcomes_pass_clause_7 :
+  forall script cfg l d,
+    let o := run_message script cfg l in
+    o_body o = Some (Some d) ->
+    forallb (fun c =>
+       existsb (fun s => Nat.eqb (ChecksCorr.calls_of o s SConn) 1 && Nat.eqb (ChecksCorr.calls_of o s SSender) 1
+                         && Nat.eqb (ChecksCorr.calls_of o s SBody) 1
+                         && forallb (fun r => Nat.eqb (ChecksCorr.calls_of o s (SRcpt r)) 1) (ChecksCorr.in_scope cfg l o c))
+               (ChecksCorr.states_of o c)) (ChecksCorr.applicable cfg l o) = true.
+Proof. exact ChecksSeen.model_outcomes_pass_clause_7. Qed.
+Print Assumptions C06_model_outcomes_pass_clause_7.
+
 Example C06_example :
   let script := fun (c : N) (st : stage) => match c, st with 1, SBody => VQuar | 2, SRcpt 7 => VReject | _, _ => VNone end in
   let cfg := {| g_checks := [1]; s_checks := []; blocks := [([2], 5); ([1; 3], 6)]; dmarc := 0; mod_fail := [] |} in
